@@ -19,6 +19,12 @@ Sources and accepted idioms (anything else raises TranslateError = broken tie):
                         ports = MAX(vdp->vd_rows, vdp->vd_columns); if (port < 0 || port OP ports)
                         with OP in { >, >= }   (candidate D4: '>' accepts port == ports)
 
+  src/vnacal_new_add_common.c
+                        one loop "full_s_matrix[s_cell_map[s_cell]] = _vnacal_new_get_parameter(function, vnp,
+                        s_matrix[s_cell])"; gen_add_common_prevalidates = a loop calling
+                        _vnacal_new_check_parameter(function, vnp, s_matrix[s_cell]) precedes it and the
+                        _vnacal_new_err_need_full_s test lies between the two (repair of D17)
+
 Output: coq/Gen/ErrnoGen.v (never committed).
 """
 import os
@@ -183,11 +189,36 @@ def parse_z0_bounds(srcdir):
     return out
 
 
+def parse_add_common(srcdir):
+    """-> True when all parameters are validated (and the argument checks finished) before any is added."""
+    t = re.sub(r"\s+", " ", strip_comments(read(os.path.join(srcdir, "vnacal_new_add_common.c"))))
+    m = re.search(r"int _vnacal_new_add_common ?\( ?vnacal_new_add_arguments_t vnaa ?\) ?\{", t)
+    if not m:
+        raise TranslateError("vnacal_new_add_common.c: _vnacal_new_add_common not found")
+    body = t[m.end():]
+    gets = [x.start() for x in re.finditer(
+        r"full_s_matrix\[s_cell_map\[s_cell\]\] = _vnacal_new_get_parameter ?\( ?function, vnp, s_matrix\[s_cell\] ?\)", body)]
+    if len(gets) != 1:
+        raise TranslateError("vnacal_new_add_common.c: the parameter registration loop is not the accepted one")
+    checks = [x.start() for x in re.finditer(
+        r"_vnacal_new_check_parameter ?\( ?function, vnp, s_matrix\[s_cell\] ?\) == -1", body)]
+    need = [x.start() for x in re.finditer(r"_vnacal_new_err_need_full_s ?\(", body)]
+    link = body.find("*vnp->vn_measurement_anchor = vnmp;")
+    if len(need) != 1 or link < 0 or link < gets[0]:
+        raise TranslateError("vnacal_new_add_common.c: need-full-S test / measurement linking not found where expected")
+    if not checks:
+        return False
+    if len(checks) != 1:
+        raise TranslateError("vnacal_new_add_common.c: more than one validation loop")
+    return checks[0] < need[0] < gets[0]
+
+
 def translate(srcdir):
     enum = parse_enum(read(os.path.join(srcdir, "vnaerr.h")))
     table, default = parse_switch(read(os.path.join(srcdir, "vnaerr_verror.c")))
     man = parse_man_table(read(os.path.join(srcdir, "vnaerr.3")))
     z0 = parse_z0_bounds(srcdir)
+    pre = parse_add_common(srcdir)
     if default is None:
         raise TranslateError("vnaerr_verror.c: no default arm")
     missing = [c for c, _ in enum if c not in table]
@@ -198,7 +229,8 @@ def translate(srcdir):
     for c in CATEGORIES:
         if c not in full:
             raise TranslateError("vnaerr.h: category VNAERR_%s of the manual is not in the enum" % c)
-    return {"enum": enum, "table": full, "explicit": sorted(table), "default": default, "man": man, "z0": z0}
+    return {"enum": enum, "table": full, "explicit": sorted(table), "default": default, "man": man, "z0": z0,
+            "add_common_prevalidates": pre}
 
 
 def emit(info):
@@ -241,6 +273,10 @@ def emit(info):
              "vnadata_get_fz0.c": "gen_get_fz0_strict", "vnadata_set_fz0.c": "gen_set_fz0_strict"}
     for f in Z0_FILES:
         L.append("Definition %s : bool := %s." % (names[f], "true" if info["z0"][f] else "false"))
+    L.append("")
+    L.append("(* _vnacal_new_add_common: true when every parameter of the S matrix is validated, and the remaining")
+    L.append("   argument checks are made, before any parameter is added to the vnacal_new_t (repair of D17) *)")
+    L.append("Definition gen_add_common_prevalidates : bool := %s." % ("true" if info["add_common_prevalidates"] else "false"))
     L.append("")
     return "\n".join(L)
 
